@@ -128,6 +128,32 @@ func main() {
 	wd := 40 * time.Millisecond
 
 	if c.Replay != "" {
+		var gen struct {
+			Kind      string `json:"kind"`
+			Scenario  int    `json:"scenario"`
+			Round     int    `json:"round"`
+			RoundSeed uint64 `json:"round_seed"`
+		}
+		if err := c.LoadReplay(&gen); err == nil && gen.Kind == "watcher" {
+			msg := watcherScenario(gen.Scenario, gen.Round)
+			fmt.Printf("replay: watcher scenario %d round %d -> %q\n", gen.Scenario, gen.Round, msg)
+			if msg != "" {
+				fmt.Println("ORACLE-FAIL:", msg)
+				c.Fail("replay", msg, gen)
+			}
+			c.Eval()
+			return
+		}
+		if gen.Kind == "concurrent" {
+			msg := concurrentRound(gen.RoundSeed)
+			fmt.Printf("replay: concurrent round %d -> %q\n", gen.RoundSeed, msg)
+			if msg != "" {
+				fmt.Println("ORACLE-FAIL:", msg)
+				c.Fail("replay", msg, gen)
+			}
+			c.Eval()
+			return
+		}
 		var h recvdrv.History
 		if err := c.LoadReplay(&h); err != nil {
 			panic(err)
@@ -237,6 +263,21 @@ func main() {
 		}
 	}
 	c.CountN("oracle_failed_histories", failed)
+
+	// pubsub watcher scenarios (real topic on a loopback host)
+	psFails := 0
+	for round := 0; round < c.Pick(3, 20) && psFails < 2; round++ {
+		for kind := 0; kind < 4; kind++ {
+			c.Eval()
+			c.Count(fmt.Sprintf("watcher_scenario:%d", kind))
+			c.Nontrivial(fmt.Sprintf("watcher-scenario-%d", kind))
+			if msg := watcherScenario(kind, round); msg != "" {
+				psFails++
+				c.Fail(fmt.Sprintf("watcher:%d:%s", kind, msg), fmt.Sprintf("pubsub watcher scenario %d: %s", kind, msg),
+					map[string]interface{}{"kind": "watcher", "scenario": kind, "round": round})
+			}
+		}
+	}
 
 	// concurrent rounds
 	rounds := c.Pick(150, 1500)
